@@ -160,9 +160,9 @@ class BMSMap(Map[BMSNoteList, BMSHitList, BMSHoldList, BMSBpmList], BMSMapMeta):
             )
 
     def _read_file_header(self, data: dict):
-        self.artist = data.get(b"ARTIST", "")
-        self.title = data.get(b"TITLE", "")
-        self.version = data.get(b"PLAYLEVEL", "")
+        self.artist = data.get(b"ARTIST", b"")
+        self.title = data.get(b"TITLE", b"")
+        self.version = data.get(b"PLAYLEVEL", b"")
         self.ln_end_channel = data.get(b"LNOBJ", b"")
 
         # We cannot pop during a loop, so we save the keys then pop later.
